@@ -12,6 +12,7 @@
 (*   call0  v = w()          call1c v = w(c)     call1v v = w(a)             *)
 (*   ret    return w         throw  throw "boom"                             *)
 (*   try    try { b } catch { b2 }                ifnz  if w isnt 0 { b }    *)
+(*   rep    for v in ..c { b }      (v = 0, 1, .. c-1, and c after the loop) *)
 (*   obs    return Object(vs...)                                             *)
 (* Scopes: 0 = F, a block's id otherwise (ids are assigned in preorder).     *)
 (*                                                                           *)
@@ -29,7 +30,7 @@ EXTENDS Integers, Sequences, FiniteSets, TLC
 
 CONSTANTS MaxCallDepth      \* recursion fuel of the reference interpreter
 
-Names == {"x", "y", "z", "f", "g", "h", "p", "q", "t", "u"}
+Names == {"x", "y", "z", "f", "g", "h", "p", "q", "t", "u", "i"}
 
 \* values: <<"I", n>> integer, <<"B", id>> block, <<"U", 0>> uninitialized, <<"N", 0>> no value
 \* exceptions <<"E", code>>
@@ -59,6 +60,7 @@ NamesOfStmt(s) ==
       [] s.k = "throw" -> {}
       [] s.k = "try" -> NamesIn(s.b) \cup NamesIn(s.b2)
       [] s.k = "ifnz" -> {s.w} \cup NamesIn(s.b)
+      [] s.k = "rep" -> {s.v} \cup NamesIn(s.b)
       [] s.k = "obs" -> Range(s.vs)
 \* names used directly in a statement list (not inside nested blocks)
 NamesIn(body) == UNION {NamesOfStmt(body[i]) : i \in 1..Len(body)}
@@ -69,7 +71,7 @@ BlocksOfStmt(s, par) ==
                           names |-> NamesIn(s.b) \cup (IF s.r = "" THEN {} ELSE {s.r}),
                           node |-> s]} \cup BlocksIn(s.b, s.id)
       [] s.k = "try" -> BlocksIn(s.b, par) \cup BlocksIn(s.b2, par)
-      [] s.k = "ifnz" -> BlocksIn(s.b, par)
+      [] s.k \in {"ifnz", "rep"} -> BlocksIn(s.b, par)
       [] OTHER -> {}
 BlocksIn(body, par) == UNION {BlocksOfStmt(body[i], par) : i \in 1..Len(body)}
 
@@ -122,7 +124,8 @@ Read(lt, S, x, loc, sh) == IF lt[<<S, x>>] = -1 THEN loc[x] ELSE sh[<<lt[<<S, x>
 WriteLoc(lt, S, x, val, loc) == IF lt[<<S, x>>] = -1 THEN [loc EXCEPT ![x] = val] ELSE loc
 WriteSh(lt, S, x, val, sh) == IF lt[<<S, x>>] = -1 THEN sh ELSE [sh EXCEPT ![<<lt[<<S, x>>], x>>] = val]
 
-RECURSIVE Exec(_, _, _, _, _, _, _, _, _), ExecStmt(_, _, _, _, _, _, _, _), CallBlock(_, _, _, _, _, _, _)
+RECURSIVE Exec(_, _, _, _, _, _, _, _, _), ExecStmt(_, _, _, _, _, _, _, _), CallBlock(_, _, _, _, _, _, _),
+          RepLoop(_, _, _, _, _, _, _, _, _)
 
 \* assign val to s.v and continue
 Assign(lt, S, s, val, loc, sh) ==
@@ -164,11 +167,19 @@ ExecStmt(sc, lt, s, S, loc, sh, d, ex) ==
             IF r[1] = "U" THEN Res("exc", E(EUninit), loc, sh)
             ELSE IF r # I(0) THEN Exec(sc, lt, s.b, 1, S, loc, sh, d, ex)
             ELSE Res("norm", U, loc, sh)
+      [] s.k = "rep" -> RepLoop(sc, lt, s, 0, S, loc, sh, d, ex)
       [] s.k = "obs" ->
             LET vals == [i \in 1..Len(s.vs) |-> Read(lt, S, s.vs[i], loc, sh)] IN
             IF \E i \in 1..Len(vals) : vals[i][1] = "U" THEN Res("exc", E(EUninit), loc, sh)
             ELSE IF ex THEN Res("undef", U, loc, sh)
             ELSE Res("obs", vals, loc, sh)
+
+\* iteration j of  for v in ..c { b }: the counter is kept outside the variable, the variable
+\* is set from it before every test, also before the last (failing) one
+RepLoop(sc, lt, s, j, S, loc, sh, d, ex) ==
+    IF j >= s.c THEN Res("norm", U, WriteLoc(lt, S, s.v, I(s.c), loc), WriteSh(lt, S, s.v, I(s.c), sh))
+    ELSE LET r == Exec(sc, lt, s.b, 1, S, WriteLoc(lt, S, s.v, I(j), loc), WriteSh(lt, S, s.v, I(j), sh), d, ex) IN
+         IF r.ctl = "norm" THEN RepLoop(sc, lt, s, j + 1, S, r.loc, r.sh, d, ex) ELSE r
 
 Exec(sc, lt, body, i, S, loc, sh, d, ex) ==
     IF i > Len(body) THEN Res("norm", U, loc, sh)
@@ -193,9 +204,9 @@ CallBlock(sc, lt, id, args, sh, d, ex) ==
 
 \* run F: result [ctl, val, sh] with ctl "nil" (fell off the end), "exc", "ret", "obs", "undef"
 RunF(body) ==
-    LET sc == ScopeTable(body)
-        lt == LocTable(sc)
-        sh0 == [k \in SharedKeys(sc) |-> U]
+    LET sc == TLCEval(ScopeTable(body))
+        lt == TLCEval(LocTable(sc))
+        sh0 == TLCEval([k \in SharedKeys(sc) |-> U])
         r == Exec(sc, lt, body, 1, 0, NoLoc, sh0, 0, FALSE)
     IN [ctl |-> IF r.ctl = "norm" THEN "nil" ELSE r.ctl, val |-> r.val, sh |-> r.sh, sc |-> sc, lt |-> lt]
 
@@ -263,7 +274,7 @@ RECURSIVE HasRet(_)
 HasRet(body) == \E i \in 1..Len(body) :
                     \/ body[i].k \in {"ret", "obs"}
                     \/ (body[i].k = "try" /\ (HasRet(body[i].b) \/ HasRet(body[i].b2)))
-                    \/ (body[i].k = "ifnz" /\ HasRet(body[i].b))
+                    \/ (body[i].k \in {"ifnz", "rep"} /\ HasRet(body[i].b))
 FunctionBlocksShareNothing(body) ==
     LET sc == ScopeTable(body)
         vars == SlotVars(sc, FALSE)
